@@ -1,10 +1,14 @@
-"""C14 — configuration of the check (deductive tier under construction)."""
+"""C14 — FITS pyramids carry the leaves' true data range up to the root and the WTML."""
 PROPERTY = "C14"
-LEVEL = "exploration"
-CONTRACT_MODULES = ["contracts.specfuns"]
-FUNCTIONS = []
+LEVEL = "other"
+CONTRACT_MODULES = ["contracts.specfuns", "contracts.lemmas_desc", "contracts.pyramid", "contracts.image", "contracts.merge",
+                    "contracts.pyramidio", "contracts.collection", "contracts.datarange"]
+FUNCTIONS = ["toasty.merge.TileMerger._get_min_max_of_children", "toasty.merge.TileMerger.walk_callback",
+             "toasty.image.Image.save", "toasty.image.Image.from_array", "toasty.image.ImageLoader.load_path"]
 LEMMAS = []
 SLOW = ()
-TRUSTED_BASE = []
-ASSUMPTIONS = []
-EXPLANATION = "bounded run-time tier only so far"
+TRUSTED_BASE = ["pyvc VC generator; z3/cvc5", "FITS header card round trip to single precision (bounded tier)"]
+ASSUMPTIONS = ["induction up the pyramid (DATAMIN(p) = min over the leaves beneath p) follows from the min/max combination proved "
+               "here, the forwarding proved on walk_callback/write_image and the children-before-parent order (C01); the "
+               "induction itself is not machine-checked"]
+EXPLANATION = "min/max combination and its forwarding into the written tile proved; header codec and real cascades bounded"
